@@ -17,6 +17,7 @@ import (
 	"strconv"
 	"strings"
 	"sync"
+	"sync/atomic"
 	"syscall"
 	"time"
 
@@ -112,29 +113,112 @@ func flatTitles(f []jsBM, out *[]string) {
 	}
 }
 
-// bmRobustChild processes cases start, start+stride, ... sequentially and prints one line per phase:
-// "BEGIN idx op" before each real call and "END idx <json result>" after the case.
-func bmRobustChild(in string, start, stride int) {
+func selfCPU() time.Duration {
+	var ru syscall.Rusage
+	if err := syscall.Getrusage(syscall.RUSAGE_SELF, &ru); err != nil {
+		return 0
+	}
+	return time.Duration(ru.Utime.Nano() + ru.Stime.Nano())
+}
+
+var pdfcpuFrame = regexp.MustCompile(`github\.com/pdfcpu/pdfcpu/pkg/([A-Za-z0-9_/]+)\.([A-Za-z0-9_.()*]+)\(`)
+
+// caseFrames lists the pdfcpu functions (innermost first) on the stack of the goroutine that executes the cases.
+func caseFrames(trace string) []string {
+	out := []string{}
+	for _, g := range strings.Split(trace, "\n\n") {
+		if !strings.Contains(g, "main.bmRobustChild") {
+			continue
+		}
+		for _, m := range pdfcpuFrame.FindAllStringSubmatch(g, -1) {
+			out = append(out, filepath.Base(m[1])+"."+m[2])
+			if len(out) >= 16 {
+				break
+			}
+		}
+	}
+	return out
+}
+
+// culprit is the innermost frame outside the utility layers (types, model, log).
+func culprit(fr []string) string {
+	for _, f := range fr {
+		pkg := strings.SplitN(f, ".", 2)[0]
+		if pkg == "types" || pkg == "model" || pkg == "log" {
+			continue
+		}
+		return f
+	}
+	return "unknown"
+}
+
+type hangInfo struct {
+	Why   string   `json:"why"`
+	Where string   `json:"where"`
+	Stack []string `json:"stack"`
+}
+
+// bmRobustChild processes cases start, start+stride, ... (or only one) sequentially and prints "BEGIN idx op" before each real
+// call and "END idx <json result>" after the case.  A watchdog inside the process measures the CPU time the process burns
+// within one call (immune to machine load and to a starved parent); beyond the budget it prints "HANG idx op <json>" with the
+// stack of the case goroutine and exits.  SIGUSR1 (sent by the parent when nothing is reported for a long time) does the same.
+func bmRobustChild(in string, start, stride, only int, budget time.Duration) {
 	dir, err := os.MkdirTemp("", "bm-robust-")
 	if err != nil {
 		h.Die("tmp: %v", err)
 	}
 	defer os.RemoveAll(dir)
+	var mu sync.Mutex
 	w := bufio.NewWriter(os.Stdout)
-	// on SIGUSR1 (sent by the parent when a call does not return) dump every goroutine's stack and exit
+	say := func(format string, a ...any) {
+		mu.Lock()
+		fmt.Fprintf(w, format, a...)
+		w.Flush()
+		mu.Unlock()
+	}
+	var curIdx, curStart atomic.Int64 // curStart: CPU ns at the start of the call, 0 = no call in progress
+	var curOp atomic.Value
+	curOp.Store("")
+	giveUp := func(why string) {
+		buf := make([]byte, 1<<20)
+		n := runtime.Stack(buf, true)
+		fr := caseFrames(string(buf[:n]))
+		b, _ := json.Marshal(hangInfo{why, culprit(fr), fr})
+		say("HANG %d %s %s\n", curIdx.Load(), curOp.Load().(string), b)
+		os.RemoveAll(dir)
+		os.Exit(3)
+	}
 	sig := make(chan os.Signal, 1)
 	signal.Notify(sig, syscall.SIGUSR1)
 	go func() {
 		<-sig
-		buf := make([]byte, 1<<20)
-		n := runtime.Stack(buf, true)
-		os.Stderr.Write(buf[:n])
-		os.Exit(3)
+		giveUp("no return and no progress (wall clock limit of the parent)")
 	}()
+	go func() {
+		for {
+			time.Sleep(10 * time.Millisecond)
+			if st := curStart.Load(); st != 0 {
+				if used := selfCPU() - time.Duration(st); used > budget {
+					giveUp(fmt.Sprintf("no return after %s of CPU time in one call", used.Round(time.Millisecond)))
+				}
+			}
+		}
+	}()
+	begin := func(idx int, op string) {
+		curIdx.Store(int64(idx))
+		curOp.Store(op)
+		say("BEGIN %d %s\n", idx, op)
+		curStart.Store(int64(selfCPU()) + 1)
+	}
+	end := func() { curStart.Store(0) }
 	idx := -1
 	err = h.EachLine(in, func(line []byte) error {
 		idx++
-		if idx < start || (idx-start)%stride != 0 {
+		if only >= 0 {
+			if idx != only {
+				return nil
+			}
+		} else if idx < start || (idx-start)%stride != 0 {
 			return nil
 		}
 		var c graphCase
@@ -145,10 +229,9 @@ func bmRobustChild(in string, start, stride int) {
 		if err := os.WriteFile(pdf, graphPDF(c), 0644); err != nil {
 			return err
 		}
-		r := graphResult{Idx: idx, Outcome: "returned", Titles: []string{}, Listed: []string{}}
+		r := graphResult{Idx: idx, Outcome: "returned", Titles: []string{}, Listed: []string{}, ReadItems: []string{}, Stack: []string{}}
 		t0 := time.Now()
-		fmt.Fprintf(w, "BEGIN %d export\n", idx)
-		w.Flush()
+		begin(idx, "export")
 		js := filepath.Join(dir, "g.json")
 		os.Remove(js)
 		if err := api.ExportBookmarksFile(pdf, js, nil); err != nil {
@@ -158,8 +241,8 @@ func bmRobustChild(in string, start, stride int) {
 		} else {
 			flatTitles(bms, &r.Titles)
 		}
-		fmt.Fprintf(w, "BEGIN %d list\n", idx)
-		w.Flush()
+		end()
+		begin(idx, "list")
 		if ss, err := api.ListBookmarksFile(pdf, nil); err != nil {
 			r.ListErr = err.Error()
 		} else {
@@ -167,10 +250,9 @@ func bmRobustChild(in string, start, stride int) {
 				r.Listed = append(r.Listed, strings.TrimSpace(s))
 			}
 		}
+		end()
 		// the reader itself, on the raw (not validated, not repaired) graph
-		fmt.Fprintf(w, "BEGIN %d read\n", idx)
-		w.Flush()
-		r.ReadItems = []string{}
+		begin(idx, "read")
 		if ctx, err := readRaw(pdf); err != nil {
 			r.ReadErr = "read context: " + err.Error()
 		} else if err := ctx.EnsurePageCount(); err != nil {
@@ -193,10 +275,10 @@ func bmRobustChild(in string, start, stride int) {
 			}
 			fl(bms)
 		}
+		end()
 		r.Ms = time.Since(t0).Milliseconds()
 		b, _ := json.Marshal(r)
-		fmt.Fprintf(w, "END %d %s\n", idx, b)
-		w.Flush()
+		say("END %d %s\n", idx, b)
 		return nil
 	})
 	if err != nil {
@@ -204,64 +286,110 @@ func bmRobustChild(in string, start, stride int) {
 	}
 }
 
-// childCPU returns the CPU time (user+system) consumed so far by process pid.
-func childCPU(pid int) time.Duration {
-	b, err := os.ReadFile(fmt.Sprintf("/proc/%d/stat", pid))
+// runChild runs one child until it ends, reports a hang or dies.  It returns the index to restart from (-1: finished).
+func runChild(exe, in string, cases []graphCase, results []*graphResult, start, stride, only int, budget, wallLimit time.Duration) int {
+	args := []string{"bm-robust-child", "--in", in, "--start", strconv.Itoa(start), "--stride", strconv.Itoa(stride), "--only", strconv.Itoa(only),
+		"--cpu-ms", strconv.Itoa(int(budget / time.Millisecond))}
+	cmd := exec.Command(exe, args...)
+	cmd.Env = append(os.Environ(), "GOMAXPROCS=2")
+	stdout, err := cmd.StdoutPipe()
 	if err != nil {
-		return 0
+		h.Die("pipe: %v", err)
 	}
-	s := string(b)
-	i := strings.LastIndexByte(s, ')')
-	if i < 0 {
-		return 0
+	var stderr strings.Builder
+	cmd.Stderr = &limitedWriter{sb: &stderr, max: 1 << 14}
+	if err := cmd.Start(); err != nil {
+		h.Die("start child: %v", err)
 	}
-	f := strings.Fields(s[i+1:])
-	if len(f) < 13 {
-		return 0
-	}
-	ut, _ := strconv.ParseInt(f[11], 10, 64)
-	st, _ := strconv.ParseInt(f[12], 10, 64)
-	return time.Duration(ut+st) * 10 * time.Millisecond // USER_HZ = 100
-}
-
-var pdfcpuFrame = regexp.MustCompile(`github\.com/pdfcpu/pdfcpu/pkg/([A-Za-z0-9_/]+)\.([A-Za-z0-9_.()*]+)\(`)
-
-// culprit extracts the innermost pdfcpu function of the goroutine that was executing the case from a Go traceback.
-func culprit(trace string) string {
-	for _, g := range strings.Split(trace, "\n\n") {
-		if !strings.Contains(g, "main.bmRobustChild") {
-			continue
+	lines := make(chan string, 64)
+	go func() {
+		sc := bufio.NewScanner(stdout)
+		sc.Buffer(make([]byte, 1<<20), 1<<26)
+		for sc.Scan() {
+			lines <- sc.Text()
 		}
-		for _, m := range pdfcpuFrame.FindAllStringSubmatch(g, -1) {
-			pkg := filepath.Base(m[1])
-			if pkg == "types" || pkg == "model" || pkg == "log" {
-				continue // utility layers called from the loop
+		close(lines)
+	}()
+	cur, op := start, "start"
+	if only >= 0 {
+		cur = only
+	}
+	step := stride
+	hung := false
+	signalled := false
+	timer := time.NewTimer(wallLimit)
+loop:
+	for {
+		select {
+		case l, ok := <-lines:
+			if !ok {
+				break loop
 			}
-			return pkg + "." + m[2]
-		}
-	}
-	return "unknown"
-}
-
-// frames lists the pdfcpu functions (innermost first) on the stack of the goroutine that executed the case.
-func frames(trace string) []string {
-	out := []string{}
-	for _, g := range strings.Split(trace, "\n\n") {
-		if !strings.Contains(g, "main.bmRobustChild") {
-			continue
-		}
-		for _, m := range pdfcpuFrame.FindAllStringSubmatch(g, -1) {
-			out = append(out, filepath.Base(m[1])+"."+m[2])
-			if len(out) >= 14 {
-				break
+			if !timer.Stop() {
+				select {
+				case <-timer.C:
+				default:
+				}
 			}
+			timer.Reset(wallLimit)
+			f := strings.SplitN(l, " ", 4)
+			if len(f) < 3 || hung {
+				continue // after a HANG report the process is exiting; whatever it still prints is void
+			}
+			i, _ := strconv.Atoi(f[1])
+			switch f[0] {
+			case "BEGIN":
+				cur, op = i, f[2]
+			case "END":
+				var r graphResult
+				if err := json.Unmarshal([]byte(strings.Join(f[2:], " ")), &r); err != nil {
+					h.Die("child result: %v", err)
+				}
+				r.Case = cases[i]
+				results[i] = &r
+				cur, op = i+step, "start"
+			case "HANG":
+				var hi hangInfo
+				if len(f) == 4 {
+					json.Unmarshal([]byte(f[3]), &hi)
+				}
+				results[i] = &graphResult{Idx: i, Case: cases[i], Outcome: "hang", Op: f[2], Titles: []string{}, Listed: []string{}, ReadItems: []string{},
+					Detail: hi.Why, Where: hi.Where, Stack: hi.Stack}
+				cur = i
+				hung = true
+			}
+		case <-timer.C:
+			if signalled {
+				cmd.Process.Kill()
+			} else {
+				cmd.Process.Signal(syscall.SIGUSR1)
+				signalled = true
+			}
+			timer.Reset(10 * time.Second)
 		}
 	}
-	return out
+	timer.Stop()
+	err = cmd.Wait()
+	switch {
+	case hung:
+		return cur + step
+	case err != nil && cur < len(cases) && op != "start":
+		first := stderr.String()
+		fr := caseFrames(first)
+		if i := strings.IndexByte(first, '\n'); i > 0 {
+			first = first[:i]
+		}
+		results[cur] = &graphResult{Idx: cur, Case: cases[cur], Outcome: "crash", Op: op, Titles: []string{}, Listed: []string{}, ReadItems: []string{},
+			Detail: err.Error() + ": " + first, Where: culprit(fr), Stack: fr}
+		return cur + step
+	case err != nil:
+		h.Die("robust child failed outside a case: %v %s", err, stderr.String())
+	}
+	return -1
 }
 
-// bmRobust drives the children and writes one result per case.  A case is a hang when the child burns more than
-// cpuBudget of CPU time inside one call (immune to machine load) or does not report for wallLimit (blocked).
+// bmRobust drives the children and writes one result per case.  Every hang or crash is confirmed by running the case alone
+// in a fresh process with three times the CPU budget; only confirmed ones are kept.
 func bmRobust(in, out string, workers int, cpuBudget, wallLimit time.Duration) {
 	var cases []graphCase
 	if err := h.EachLine(in, func(line []byte) error {
@@ -281,120 +409,34 @@ func bmRobust(in, out string, workers int, cpuBudget, wallLimit time.Duration) {
 		wg.Add(1)
 		go func(k int) {
 			defer wg.Done()
-			start := k
-			for start < len(cases) {
-				cmd := exec.Command(exe, "bm-robust-child", "--in", in, "--start", strconv.Itoa(start), "--stride", strconv.Itoa(workers))
-				cmd.Env = append(os.Environ(), "GOMAXPROCS=2", "GOTRACEBACK=all")
-				stdout, err := cmd.StdoutPipe()
-				if err != nil {
-					h.Die("pipe: %v", err)
-				}
-				var stderr strings.Builder
-				cmd.Stderr = &limitedWriter{sb: &stderr, max: 1 << 16}
-				if err := cmd.Start(); err != nil {
-					h.Die("start child: %v", err)
-				}
-				lines := make(chan string, 16)
-				go func() {
-					sc := bufio.NewScanner(stdout)
-					sc.Buffer(make([]byte, 1<<20), 1<<26)
-					for sc.Scan() {
-						lines <- sc.Text()
-					}
-					close(lines)
-				}()
-				cur, op := start, "start"
-				restart := -1
-				hang := ""
-				lastLine := time.Now()
-				cpu0 := childCPU(cmd.Process.Pid)
-				tick := time.NewTicker(25 * time.Millisecond)
-			loop:
-				for {
-					select {
-					case l, ok := <-lines:
-						if !ok {
-							break loop
-						}
-						lastLine = time.Now()
-						cpu0 = childCPU(cmd.Process.Pid)
-						f := strings.SplitN(l, " ", 3)
-						if len(f) < 3 {
-							continue
-						}
-						i, _ := strconv.Atoi(f[1])
-						switch f[0] {
-						case "BEGIN":
-							cur, op = i, f[2]
-						case "END":
-							var r graphResult
-							if err := json.Unmarshal([]byte(f[2]), &r); err != nil {
-								h.Die("child result: %v", err)
-							}
-							r.Case = cases[i]
-							results[i] = &r
-							cur, op = i+workers, "start"
-						}
-					case <-tick.C:
-						used := childCPU(cmd.Process.Pid) - cpu0
-						if op == "start" {
-							if time.Since(lastLine) > 5*wallLimit {
-								h.Die("robust child does not start")
-							}
-						} else if used > cpuBudget {
-							hang = fmt.Sprintf("no return after %s of CPU time in one call", used)
-						} else if time.Since(lastLine) > wallLimit {
-							hang = fmt.Sprintf("no return and no progress for %s", wallLimit)
-						}
-						if hang != "" {
-							cmd.Process.Signal(syscall.SIGUSR1) // the child dumps all goroutine stacks and exits
-							go func() {
-								time.Sleep(5 * time.Second)
-								cmd.Process.Kill()
-							}()
-							for range lines {
-							}
-							break loop
-						}
-					}
-				}
-				tick.Stop()
-				err = cmd.Wait()
-				switch {
-				case hang != "":
-					if cur < len(cases) {
-						results[cur] = &graphResult{Idx: cur, Case: cases[cur], Outcome: "hang", Op: op, Titles: []string{}, Listed: []string{}, ReadItems: []string{},
-							Detail: hang, Where: culprit(stderr.String()), Stack: frames(stderr.String())}
-					}
-					restart = cur + workers
-				case err != nil && cur < len(cases) && results[cur] == nil && op != "start":
-					tr := stderr.String()
-					first := tr
-					if i := strings.IndexByte(first, '\n'); i > 0 {
-						first = first[:i]
-					}
-					results[cur] = &graphResult{Idx: cur, Case: cases[cur], Outcome: "crash", Op: op, Titles: []string{}, Listed: []string{}, ReadItems: []string{},
-						Detail: err.Error() + ": " + first, Where: culprit(tr), Stack: frames(tr)}
-					restart = cur + workers
-				case err != nil:
-					h.Die("robust child failed outside a case: %v %s", err, stderr.String())
-				}
-				if restart < 0 {
-					break
-				}
-				start = restart
+			for start := k; start >= 0 && start < len(cases); {
+				start = runChild(exe, in, cases, results, start, workers, -1, cpuBudget, wallLimit)
 			}
 		}(k)
 	}
 	wg.Wait()
-	wr := h.NewW(out)
-	defer wr.Close()
-	sum := map[string]int{}
-	agree := map[string]int{}
+	unconfirmed := 0
 	for i, r := range results {
 		if r == nil {
 			h.Die("no result for graph %d", i)
 		}
+		if r.Outcome == "returned" {
+			continue
+		}
+		first := *r
+		results[i] = nil
+		runChild(exe, in, cases, results, i, 1, i, 3*cpuBudget, wallLimit)
+		if results[i] == nil {
+			results[i] = &first
+		} else if results[i].Outcome == "returned" {
+			unconfirmed++
+		}
+	}
+	wr := h.NewW(out)
+	defer wr.Close()
+	sum := map[string]int{}
+	agree := map[string]int{}
+	for _, r := range results {
 		sum[r.Outcome]++
 		if r.Outcome == "returned" {
 			k := "model=" + r.Case.Status + "/" + strconv.Itoa(len(r.Case.Out)) + " real="
@@ -407,7 +449,7 @@ func bmRobust(in, out string, workers int, cpuBudget, wallLimit time.Duration) {
 		}
 		wr.Put(r)
 	}
-	h.Summary(map[string]any{"cases": len(cases), "outcomes": sum, "matrix": agree})
+	h.Summary(map[string]any{"cases": len(cases), "outcomes": sum, "matrix": agree, "unconfirmed": unconfirmed})
 }
 
 type limitedWriter struct {
